@@ -59,7 +59,7 @@ def main():
             fails = None
         queries.append(q)
         if st in ('timeout', 'oom', 'error'):
-            (noverdict if j.meta.get('optional') else broken).append('%s: %s %s' % (j.name, st, ' | '.join(getattr(r, 'messages', [])[-2:])[:300] if st == 'error' else ''))
+            (noverdict if j.meta.get('optional') else broken).append('%s: %s %s' % (j.name, st, ' | '.join(getattr(r, 'messages', [])[-2:])[-400:] if st in ('error', 'oom') else ''))
             continue
         if j.expect == 'witness':
             if fails is None:
